@@ -1,3 +1,155 @@
 package schedseq
 
-func (s *sys) doList() {}
+import (
+	"sort"
+
+	"github.com/buildbarn/bb-remote-execution/pkg/proto/buildqueuestate"
+	"github.com/buildbarn/bb-remote-execution/pkg/scheduler/invocation"
+	"google.golang.org/protobuf/types/known/anypb"
+)
+
+// doList is the "list" letter: the operator lists, for every invocation with
+// queued work, its queued child invocations (documented: "sorted by priority
+// at which operations are scheduled") and its queued operations, and the
+// orders are compared with the reference model. Pairs the policy leaves open
+// (ties) are accepted in either order. The calls re-sort the heaps of the
+// implementation, so they are part of the explored histories.
+func (s *sys) doList() {
+	type target struct {
+		pq *mPq
+		q  *mScq
+	}
+	var targets []target
+	s.mu.Lock()
+	s.m.expire(s.clock.Now())
+	for _, pk := range s.m.sortedPqKeys() {
+		pq := s.m.pqs[pk]
+		for _, sc := range pq.sizeClasses() {
+			targets = append(targets, target{pq, pq.scqs[sc]})
+		}
+	}
+	s.mu.Unlock()
+	for _, t := range targets {
+		if !s.listInvocation(t.pq, t.q, nil) {
+			return
+		}
+	}
+}
+
+// listInvocation returns false when checking must stop.
+func (s *sys) listInvocation(pq *mPq, q *mScq, path []string) bool {
+	for _, k := range s.listOne(pq, q, path) {
+		if !s.listInvocation(pq, q, append(append([]string(nil), path...), k)) {
+			return false
+		}
+	}
+	s.mu.Lock()
+	defer s.mu.Unlock()
+	return !s.broken && !s.torn
+}
+
+// listOne lists one invocation and returns the children to descend into.
+func (s *sys) listOne(pq *mPq, q *mScq, path []string) []string {
+	s.mu.Lock()
+	if s.broken || s.torn {
+		s.mu.Unlock()
+		return nil
+	}
+	name := &buildqueuestate.InvocationName{SizeClassQueueName: scqName(q.key.prefix, q.key.platform, q.key.sc)}
+	for _, n := range path {
+		name.Ids = append(name.Ids, s.nameKeys[n].GetID())
+	}
+	// Queued operations of this invocation.
+	var direct []*mTask
+	for _, t := range q.queued {
+		if pathStr(t.path) == pathStr(path) {
+			direct = append(direct, t)
+		}
+	}
+	childSet := queuedChildSet(q, path)
+	s.mu.Unlock()
+	ops, err := s.bq.ListQueuedOperations(s.ctx, &buildqueuestate.ListQueuedOperationsRequest{InvocationName: name, PageSize: 1000})
+	resp, err2 := s.bq.ListInvocationChildren(s.ctx, &buildqueuestate.ListInvocationChildrenRequest{InvocationName: name, Filter: buildqueuestate.ListInvocationChildrenRequest_QUEUED})
+	s.mu.Lock()
+	defer s.mu.Unlock()
+	if s.torn || s.broken {
+		return nil
+	}
+	if err != nil {
+		if len(direct) > 0 || len(queuedChildSet(q, path)) > 0 {
+			s.fail("C04", "list/error", "ListQueuedOperations(%v) failed: %v", path, err)
+		}
+		return nil
+	}
+	var listed []*mTask
+	for _, o := range ops.QueuedOperations {
+		t := s.m.tasks[o.ActionDigest.GetHash()]
+		if t == nil || t.state != tQueued || pathStr(t.path) != pathStr(path) || t.scq != q.key {
+			s.fail("C04", "list/unknown-operation", "ListQueuedOperations(%v) of %v lists %s which is not queued there in the model", path, q.key, o.ActionDigest.GetHash()[:6])
+			return nil
+		}
+		listed = append(listed, t)
+	}
+	if len(listed) != len(direct) {
+		s.fail("C04", "list/operations-count", "ListQueuedOperations(%v) of %v lists %d operations, the model has %d", path, q.key, len(listed), len(direct))
+		return nil
+	}
+	for i := 0; i < len(listed); i++ {
+		for j := i + 1; j < len(listed); j++ {
+			if directBefore(listed[j], listed[i]) {
+				s.fail("C04", "list/operations-order", "ListQueuedOperations(%v) lists %s (p%d d%v q@%v) before %s (p%d d%v q@%v), contrary to the documented order", path,
+					listed[i].letter, listed[i].prio, listed[i].dur, listed[i].queuedAt.Sub(epoch), listed[j].letter, listed[j].prio, listed[j].dur, listed[j].queuedAt.Sub(epoch))
+				return nil
+			}
+		}
+	}
+	// Queued child invocations.
+	if err2 != nil {
+		s.fail("C04", "list/error", "ListInvocationChildren(%v) failed: %v", path, err2)
+		return nil
+	}
+	infos := map[string]*childInfo{}
+	for _, c := range s.m.childInfos(pq, q, path, childSet) {
+		infos[c.key] = c
+	}
+	var order []*childInfo
+	for _, c := range resp.Children {
+		n := s.idName(c.Id)
+		ci := infos[n]
+		if ci == nil {
+			s.fail("C04", "list/unknown-child", "ListInvocationChildren(%v, QUEUED) lists %q which has no queued operations in the model", path, n)
+			return nil
+		}
+		order = append(order, ci)
+	}
+	if len(order) != len(infos) {
+		s.fail("C04", "list/children-count", "ListInvocationChildren(%v, QUEUED) lists %d children, the model has %d", path, len(order), len(infos))
+		return nil
+	}
+	for i := 0; i < len(order); i++ {
+		for j := i + 1; j < len(order); j++ {
+			if definitelyBefore(order[j], order[i]) {
+				s.fail("C04", "list/children-order", "ListInvocationChildren(%v, QUEUED) lists %s (executing+1=%d prio %v last served %v) before %s (executing+1=%d prio %v last served %v), contrary to the documented order", path,
+					order[i].key, order[i].e, order[i].prios, order[i].last.Sub(epoch), order[j].key, order[j].e, order[j].prios, order[j].last.Sub(epoch))
+				return nil
+			}
+		}
+	}
+	var keys []string
+	for k := range childSet {
+		keys = append(keys, k)
+	}
+	sort.Strings(keys)
+	return keys
+}
+
+func (s *sys) idName(id *anypb.Any) string {
+	k, err := invocation.NewKey(id)
+	if err != nil {
+		return "?"
+	}
+	if n, ok := s.keyNames[string(k)]; ok {
+		return n
+	}
+	return "?" + string(k)
+}
